@@ -12,6 +12,10 @@ func init() {
 	vHarnesses["vH_C04_path_testpic2s_V300_time"] = vH_C04_path_testpic2s_V300_time
 	vHarnesses["vH_C04_path_wave2997_A48_time"] = vH_C04_path_wave2997_A48_time
 	vHarnesses["vH_C04_path_bbb_ac3_time"] = vH_C04_path_bbb_ac3_time
+	vHarnesses["vH_C09_early_testpic2s_A48_time"] = vH_C09_early_testpic2s_A48_time
+	vHarnesses["vH_C09_early_testpic2s_A48_nr"] = vH_C09_early_testpic2s_A48_nr
+	vHarnesses["vH_C09_early_testpic2s_V300_time"] = vH_C09_early_testpic2s_V300_time
+	vHarnesses["vH_C09_early_testpic2s_V300_nr"] = vH_C09_early_testpic2s_V300_nr
 	vHarnesses["vH_C04_below_testpic2s_V300"] = vH_C04_below_testpic2s_V300
 	vHarnesses["vH_C04_below_testpic2s_A48"] = vH_C04_below_testpic2s_A48
 	vHarnesses["vH_C04_below_testpic2s_A48_tlnr"] = vH_C04_below_testpic2s_A48_tlnr
@@ -25,22 +29,41 @@ func vH_C04_path_wave2997_A48_time() {
 	vC04Path(vAsset_WAVE_vectors_cfhd_sets_14_985_29_97_59_94_t1_2022_10_17(), "A48", 1)
 }
 func vH_C04_path_bbb_ac3_time()        { vC04Path(vAsset_bbb_hevc_ac3_8s(), "2", 1) }
+func vH_C09_early_testpic2s_A48_time()  { vC04PathAto(vAsset_testpic_2s(), "A48", 1, true) }
+func vH_C09_early_testpic2s_A48_nr()    { vC04PathAto(vAsset_testpic_2s(), "A48", 0, true) }
+func vH_C09_early_testpic2s_V300_time() { vC04PathAto(vAsset_testpic_2s(), "V300", 1, true) }
+func vH_C09_early_testpic2s_V300_nr()   { vC04PathAto(vAsset_testpic_2s(), "V300", 0, true) }
 func vH_C04_below_testpic2s_V300()     { vC04Below(vAsset_testpic_2s(), "V300", 0) }
 func vH_C04_below_testpic2s_A48()      { vC04Below(vAsset_testpic_2s(), "A48", 0) }
 func vH_C04_below_testpic2s_A48_tlnr() { vC04Below(vAsset_testpic_2s(), "A48", 2) }
 
 // mode: 0 = $Number$, 1 = SegmentTimeline $Time$, 2 = SegmentTimeline $Number$
-func vC04Path(a *asset, repID string, mode int) {
+func vC04Path(a *asset, repID string, mode int) { vC04PathAto(a, repID, mode, false) }
+
+// lowLatency: availabilityTimeOffset is a symbolic whole number of milliseconds in 1 .. segment duration - 1 (chunked
+// delivery, C09): a request before AST + segment end - offset is refused as too early (1 ms slack for the float
+// arithmetic of the real code), at or after it the segment is available.
+func vC04PathAto(a *asset, repID string, mode int, lowLatency bool) {
 	vPrepareRegexps(a)
 	rep := a.Reps[repID]
 	ref := a.refRep
 	refTs := ref.MediaTimescale
 	startNr := vInt("startNr", 0, 1<<20)
-	startS := vInt("startS", 0, 1<<32-1)
-	tsbd := vInt("tsbd", 0, 172800)
-	n := vInt("n", 0, 1<<26)
-	now1 := vInt("now1", 0, 1<<42)
-	now2 := vInt("now2", 0, 1<<42)
+	var startS, tsbd, n, now1, now2 int
+	if lowLatency {
+		// smaller ranges (solver time of the audio/time path): start < 2^24 s, n < 2^16, now < 2^36 ms
+		startS = vInt("startS", 0, 1<<24)
+		tsbd = vInt("tsbd", 0, 172800)
+		n = vInt("n", 0, 1<<16)
+		now1 = vInt("now1", 0, 1<<36)
+		now2 = vInt("now2", 0, 1<<36)
+	} else {
+		startS = vInt("startS", 0, 1<<32-1)
+		tsbd = vInt("tsbd", 0, 172800)
+		n = vInt("n", 0, 1<<26)
+		now1 = vInt("now1", 0, 1<<42)
+		now2 = vInt("now2", 0, 1<<42)
+	}
 	vAssume(now1 <= now2)
 	cfg := vCfg(startS, startNr, tsbd)
 	switch mode {
@@ -48,6 +71,12 @@ func vC04Path(a *asset, repID string, mode int) {
 		cfg.SegTimelineFlag = true
 	case 2:
 		cfg.SegTimelineNrFlag = true
+	}
+	atoMS := 0
+	if lowLatency {
+		atoMS = vInt("atoMS", 1, a.SegmentDurMS-1)
+		cfg.AvailabilityTimeOffsetS = float64(atoMS) / 1000.0
+		cfg.ChunkDurS = Ptr(float64(a.SegmentDurMS-atoMS) / 1000.0)
 	}
 	// The segment as the MPD would address it
 	segID := startNr + n
@@ -73,9 +102,16 @@ func vC04Path(a *asset, repID string, mode int) {
 	}
 	ts := timing.MediaTimescale
 	endTicks := vSegEndTicks(a, timing, n)
-	lhs := (now1 - 1000*startS) * ts
+	lhs := (now1 - 1000*startS + atoMS) * ts
 	rhs := 1000 * endTicks
-	if lhs >= rhs {
+	if lowLatency {
+		if lhs >= rhs+ts {
+			vAssert("C09.path.available-at-advertised-time+1ms", p1 != 0)
+		}
+		if lhs+ts <= rhs {
+			vAssert("C09.path.too-early-before-advertised-time-1ms", p1 == 0)
+		}
+	} else if lhs >= rhs {
 		vAssert("C04.path.available-at-A", p1 != 0)
 	} else {
 		vAssert("C04.path.too-early-before-A", p1 == 0)
